@@ -13,6 +13,8 @@ positive on the violated side; coupler.and_/or_/not_ aggregate with sum/min/
 negation.  Round 4: coupler.and_/or_/not_ hand k=1 by default whatever ptype is (abstract
 interpretation of the settings prologue over all keyword scenarios);
 as_penalty.rnorm is the uncast Euclidean displacement.
+Round 5 (hunt): as_penalty measures the displacement on a copy (repair
+af222c8).
 NOT decided: numeric values.
 """
 import ast
